@@ -14,7 +14,23 @@ theorem last_request_decision (ver : Version) (hs : List Header)
     (hv : ver = ⟨1, 0⟩ ∨ ver = ⟨1, 1⟩)
     (hc : Spec.contradictory ver ((findHeader hs b!"Connection").map (·.value)) = false) :
     isLastRequest ver hs = Spec.isLast ver ((findHeader hs b!"Connection").map (·.value)) := by
-  sorry
+  unfold isLastRequest Spec.isLast
+  unfold Spec.contradictory at hc
+  cases hfh : findHeader hs b!"Connection" with
+  | none => simp
+  | some e =>
+    rw [hfh] at hc
+    simp only [Option.map_some] at hc ⊢
+    rcases hv with rfl | rfl
+    · have h10 : ((⟨1, 0⟩ : Version) == ⟨1, 0⟩) = true := by decide
+      simp only [h10, Bool.true_and, Bool.and_true] at hc ⊢
+      cases h1 : containsSub (lower e.value) b!"close" <;>
+        cases h2 : containsSub (lower e.value) b!"upgrade" <;>
+        cases h3 : containsSub (lower e.value) b!"keep-alive" <;> simp_all
+    · have h11 : ((⟨1, 1⟩ : Version) == ⟨1, 0⟩) = false := by decide
+      simp only [h11, Bool.and_false]
+      cases h1 : containsSub (lower e.value) b!"close" <;>
+        cases h2 : containsSub (lower e.value) b!"upgrade" <;> simp
 
 /-- After a request that ends the connection no further client byte is interpreted: whatever
     follows it in the stream (`bs` is arbitrary), exactly this one request is delivered from the
@@ -30,7 +46,9 @@ theorem nothing_after_last (fuel idx : Nat) (s : St) (bs : Bytes) (fin : EndStat
     let r := handle s h fr true (script idx) (initialBody fr.kind rest).1 (initialBody fr.kind rest).2 fin
     t.delivered = r.1.delivered ∧ t.out = r.1.out ∧
       (r.2.2 = false → t.ending = .closed ∧ t.flushed = t.out.length) := by
-  sorry
+  rw [runLoop_step fuel idx s bs fin script h rest fr hh hf hshort hver, hlast]
+  cases hb : (handle s h fr true (script idx) (initialBody fr.kind rest).1 (initialBody fr.kind rest).2 fin).2.2 <;>
+    simp [St.finish, hb]
 
 /-- Otherwise the connection stays open: the loop goes on with the bytes after this request. -/
 theorem stays_open (fuel idx : Nat) (s : St) (bs : Bytes) (fin : EndState) (script : Script)
@@ -43,7 +61,9 @@ theorem stays_open (fuel idx : Nat) (s : St) (bs : Bytes) (fin : EndState) (scri
     let r := handle s h fr false (script idx) (initialBody fr.kind rest).1 (initialBody fr.kind rest).2 fin
     r.2.2 = false →
       runLoop (fuel + 1) idx s bs fin script = runLoop fuel (idx + 1) r.1 r.2.1 fin script := by
-  sorry
+  intro r hr
+  rw [runLoop_step fuel idx s bs fin script h rest fr hh hf hshort hver, hlast]
+  simp [r, hr]
 
 /-- Orderly close: when the client has closed its sending side and nothing is left to read, the
     server closes too, with every byte of every response already handed out on the wire:
@@ -51,14 +71,15 @@ theorem stays_open (fuel idx : Nat) (s : St) (bs : Bytes) (fin : EndState) (scri
 theorem close_after_client_eof (fuel idx : Nat) (s : St) (script : Script) :
     let t := runLoop (fuel + 1) idx s [] .eof script
     t.ending = .closed ∧ t.out = s.out ∧ t.flushed = t.out.length ∧ t.delivered = s.delivered := by
-  sorry
+  have hh : readHead [] .eof = .error (.stop .eof) := by decide
+  simp [runLoop, hh, St.finish]
 
 /-- Nothing a connection has already sent or delivered is ever retracted or reordered by what
     happens later: the final trace extends the state at every point of the loop. -/
 theorem trace_extends_state (fuel idx : Nat) (s : St) (bs : Bytes) (fin : EndState) (script : Script) :
     let t := runLoop fuel idx s bs fin script
     (∃ ds, t.delivered = s.delivered ++ ds) ∧ (∃ o, t.out = s.out ++ o) ∧ (∃ st, t.statuses = s.statuses ++ st) := by
-  sorry
+  exact runLoop_ext fuel idx s bs fin script
 
 example : isLastRequest ⟨1, 1⟩ [⟨b!"connection", b!"Keep-Alive, CLOSE"⟩] = true := by decide
 example : isLastRequest ⟨1, 0⟩ [⟨b!"Connection", b!"keep-alive"⟩] = false := by decide
